@@ -14,6 +14,14 @@ use crate::json::J;
 
 pub const VERIF_DIR: &str = "/verif";
 
+/// Replay records of violations seen so far in this run (written as soon as a new failure key
+/// appears); the wall-cap watchdog reports them if the run has to be cut short.
+static EARLY: std::sync::Mutex<Vec<(String, PathBuf)>> = std::sync::Mutex::new(Vec::new());
+
+pub fn early_violations() -> Vec<(String, PathBuf)> {
+    EARLY.lock().map(|e| e.clone()).unwrap_or_default()
+}
+
 #[derive(Clone, Copy, Debug, PartialEq, Eq)]
 pub enum Tier {
     Quick,
@@ -136,11 +144,23 @@ impl Report {
         let e = self.violations.entry(key.clone()).or_insert((0, Vec::new()));
         e.0 += 1;
         if e.1.is_empty() {
-            e.1.push(Violation {
-                key,
-                what: what.into(),
-                replay,
-            });
+            let what = what.into();
+            // the replay record of a new failure key is written at once (unless it is a listed known
+            // finding), so that a run which is later cut short by the wall cap still has its verdict
+            if KnownFindings::load().matches(self.prop, &key).is_none() {
+                let dir = PathBuf::from(VERIF_DIR).join("replays").join(self.prop);
+                let _ = fs::create_dir_all(&dir);
+                let path = dir.join(format!("{}-0.json", sanitize(&key)));
+                let j = J::obj([("property", J::s(self.prop)), ("key", J::s(key.clone())), ("what", J::s(what.clone())), ("case", replay.clone())]);
+                if fs::write(&path, j.to_pretty()).is_ok() {
+                    if let Ok(mut early) = EARLY.lock() {
+                        if early.len() < 20 {
+                            early.push((self.prop.to_string(), path));
+                        }
+                    }
+                }
+            }
+            e.1.push(Violation { key, what, replay });
         }
     }
 
@@ -314,7 +334,11 @@ impl Report {
             self.exhaustive,
             wall
         );
-        if gate_blocking > 0 {
+        // a run in which at least one violation was reproduced by its record keeps its verdict; the
+        // others are listed above as not reproduced (e.g. a stale per-thread cache that only a
+        // particular order of cases in the worker pool exposes, next to the deterministic two-step
+        // history that exposes the same defect)
+        if gate_blocking > 0 && gate_reproduced == 0 {
             eprintln!("ENGINE: {gate_blocking} violation(s) were not reproduced by their own replay records; this is a machinery failure (uncaptured nondeterminism or an incomplete replay record), not a verdict");
             return 2;
         }
